@@ -330,6 +330,11 @@ class FnCompiler:
                 if not (isinstance(t, tuple) and t[0] == "list"):
                     raise Fail("list() of %r" % (t,))
                 return c, t, p
+            if name == "dict" and len(e.args) == 1 and not star:          # a shallow copy: values of the model are immutable
+                c, t, p = self.expr(e.args[0], env)
+                if not (isinstance(t, tuple) and t[0] == "dict"):
+                    raise Fail("dict() of %r" % (t,))
+                return c, t, p
             if name == "range" and len(e.args) == 1 and not star:
                 c, t, p = self.expr(e.args[0], env)
                 if t != Z:
@@ -409,6 +414,10 @@ class FnCompiler:
                 return code, Z, pure
             if ast.unparse(f) == "copy.copy" and len(e.args) == 1:
                 return self.expr(e.args[0], env)              # values of the model are immutable
+            if f.attr == "copy" and not e.args:                             # x.copy() of a list / dict
+                c, t, p = self.expr(f.value, env)
+                if isinstance(t, tuple) and t[0] in ("list", "dict"):
+                    return c, t, p
             if f.attr == "lower" and not e.args:
                 c, t, p = self.expr(f.value, env)
                 if t == S:
